@@ -81,7 +81,7 @@ namespace ip {
 			result_t res{t, ec, std::move(ips), std::move(handler) };
 			m_queue.insert(m_queue.begin(), std::move(res));
 			m_timer.expires_at(m_queue.front().completion_time);
-			m_timer.async_wait(aux::make_malloc(std::bind(&basic_resolver::on_lookup, this, _1)));
+			wait_for_lookup();
 			return;
 		}
 		ec.clear();
@@ -107,7 +107,19 @@ namespace ip {
 		m_queue.emplace_back(std::move(res));
 
 		m_timer.expires_at(m_queue.front().completion_time);
-		m_timer.async_wait(aux::make_malloc(std::bind(&basic_resolver::on_lookup, this, _1)));
+		wait_for_lookup();
+	}
+
+	template<typename Protocol>
+	void basic_resolver<Protocol>::wait_for_lookup()
+	{
+		std::weak_ptr<int> alive = m_alive;
+		m_timer.async_wait([this, alive](boost::system::error_code const& ec)
+		{
+			// the resolver may have been destroyed after the timer expired
+			if (alive.expired()) return;
+			on_lookup(ec);
+		});
 	}
 
 	template<typename Protocol>
@@ -133,7 +145,7 @@ namespace ip {
 		if (empty) return;
 
 		m_timer.expires_at(m_queue.front().completion_time);
-		m_timer.async_wait(aux::make_malloc(std::bind(&basic_resolver::on_lookup, this, _1)));
+		wait_for_lookup();
 	}
 
 	template<typename Protocol>
